@@ -189,3 +189,14 @@ def deliverL (p : PS) : Option PS :=
   | _ => none
 
 end Penguin.Pair
+
+namespace Penguin.Pair
+open Penguin.Mux
+
+/-- A stimulus of the correspondence harness at one endpoint. -/
+inductive Stim where
+  | call (op : Mux.Op)        -- an application call (`open`, `accept`, `write`, `read`, `shutdown`, …)
+  | deliver                   -- the oldest message in transit to this endpoint is handed to it
+deriving Repr
+
+end Penguin.Pair
